@@ -11,20 +11,36 @@
 (*                                                                         *)
 (* Logged events: inv (before the call), fb / fe (first and last statement *)
 (* of the caller's fetch function, fe carries its outcome), ret (after the *)
-(* call, with the returned value or error).  NOT logged, placed by TLC:    *)
-(*   Enter(p)   the moment the call looks at the cache: a cached value is   *)
-(*              taken; else the call joins the flight registered for the   *)
-(*              key; else it registers a flight of its own (and will run   *)
-(*              its fetch function);                                       *)
-(*   Finish(p)  the moment the flight's owner publishes the result: the    *)
-(*              value is cached iff the fetch succeeded, the flight is     *)
-(*              unregistered, joined callers get the owner's result.       *)
-(* A history is accepted iff some placement of these steps explains every  *)
-(* logged event.  Consequences that make a history unacceptable: two fetch *)
-(* executions of one key overlapping in time, a fetch although the value   *)
-(* was cached before the call began, a caller returning a value or error   *)
-(* that is neither cached nor the outcome of a flight overlapping its      *)
-(* call, a value served from the cache after a failed fetch.               *)
+(* call, with the returned value or error).  The histories contain only    *)
+(* Take calls (no Set, Del, eviction or expiry).                           *)
+(*                                                                         *)
+(* Rules for the fetch function (event fb of caller p, key k):             *)
+(*   F1  no flight is registered for k: fetch executions of one key never  *)
+(*       overlap (a flight is registered from its fb until its owner       *)
+(*       publishes);                                                       *)
+(*   F2  nothing is cached for k;                                          *)
+(*   F3  no successful fetch of k has ENDED earlier in the history         *)
+(*       (done[k]): fe is logged inside the fetch function, i.e. before    *)
+(*       the owner stores the value and before its flight is removed; a    *)
+(*       later owner can only register after that removal and looks the    *)
+(*       key up again, so in a correct cache no fb for k follows a         *)
+(*       successful fe for k.  (F3 follows from F1+F2 and the placement of *)
+(*       Finish below; it is stated on its own because it is the clause    *)
+(*       "at most once among concurrent callers" for callers that missed   *)
+(*       the cache before the value was stored but reached the flight      *)
+(*       group after the flight was removed.)                              *)
+(* NOT logged, placed by TLC:                                              *)
+(*   Finish(p)  the moment the flight's owner publishes: the value is      *)
+(*              cached iff the fetch succeeded, the flight is unregistered.*)
+(* What a caller that does not fetch may return: while it is invoked the   *)
+(* acceptor collects its options - a value that was cached at some moment  *)
+(* of the call, or the result of a flight that was registered at some      *)
+(* moment of the call (resolved when it returns).  A failed flight hands   *)
+(* its callers the fetch function's own error and caches nothing, so a     *)
+(* later caller has no option but to fetch.                                *)
+(* A history is accepted iff some placement of the Finish steps explains   *)
+(* every logged event.  (The only nondeterminism is that placement, so the *)
+(* acceptor scales to histories with dozens of concurrent callers.)        *)
 (*                                                                         *)
 (* Histories are concatenated; `reset` (legal only at quiescence)          *)
 (* re-establishes the empty cache.  Acceptance: the high-water mark of l   *)
@@ -38,19 +54,30 @@ VARIABLES l,        \* next event to consume
           cached,   \* [Keys -> Int], 0 = nothing cached
           flight,   \* [Keys -> Nat], id of the registered flight, 0 = none
           nf,       \* flights created so far in this history
-          fres,     \* flight id -> [ok, v] once finished
+          fres,     \* flight id -> [ok, v] once published
+          done,     \* [Keys -> BOOLEAN]: a successful fetch of the key has ended
           pc        \* per process call state
 
-vars == <<l, cached, flight, nf, fres, pc>>
+vars == <<l, cached, flight, nf, fres, done, pc>>
 
 Keys == {"a", "b"}
-Procs == 0..15
+Procs == 0..63
 Idle == [s |-> "idle"]
 Ev == TraceLog[l]
 Is(name) == l <= Len(TraceLog) /\ TraceLog[l].e = name
 Consume == l' = l + 1
 P == Ev.p
-SetPc(p, r) == pc' = [pc EXCEPT ![p] = r]
+
+\* what a caller looking at key k right now would get without fetching
+Avail(c, f, k) == IF c[k] # 0 THEN {[t |-> "hit", x |-> c[k]]}
+                  ELSE IF f[k] # 0 THEN {[t |-> "join", x |-> f[k]]} ELSE {}
+
+\* process p takes state r; every other caller waiting on key k learns the options `add`
+Update(p, r, k, add) ==
+  pc' = [q \in Procs |->
+           IF q = p THEN r
+           ELSE IF pc[q].s = "inv" /\ pc[q].k = k THEN [pc[q] EXCEPT !.opts = @ \cup add]
+           ELSE pc[q]]
 
 Init ==
   /\ l = 1
@@ -58,6 +85,7 @@ Init ==
   /\ flight = [k \in Keys |-> 0]
   /\ nf = 0
   /\ fres = <<>>
+  /\ done = [k \in Keys |-> FALSE]
   /\ pc = [p \in Procs |-> Idle]
   /\ TLCSet(1, 1)
 
@@ -68,60 +96,60 @@ Reset ==
   /\ flight' = [k \in Keys |-> 0]
   /\ nf' = 0
   /\ fres' = <<>>
+  /\ done' = [k \in Keys |-> FALSE]
   /\ UNCHANGED pc
   /\ Consume
 
 Inv ==
   /\ Is("inv") /\ pc[P] = Idle
-  /\ SetPc(P, [s |-> "inv", k |-> Ev.k])
-  /\ UNCHANGED <<cached, flight, nf, fres>> /\ Consume
-
-Enter(p) ==                                  \* internal
-  /\ pc[p].s = "inv"
-  /\ LET k == pc[p].k IN
-       IF cached[k] # 0
-         THEN /\ SetPc(p, [s |-> "hit", k |-> k, v |-> cached[k]])
-              /\ UNCHANGED <<flight, nf>>
-         ELSE IF flight[k] # 0
-           THEN /\ SetPc(p, [s |-> "join", k |-> k, id |-> flight[k]])
-                /\ UNCHANGED <<flight, nf>>
-           ELSE /\ nf' = nf + 1
-                /\ flight' = [flight EXCEPT ![k] = nf + 1]
-                /\ SetPc(p, [s |-> "lead", k |-> k, id |-> nf + 1, ph |-> "reg", ok |-> FALSE, v |-> 0])
-  /\ UNCHANGED <<l, cached, fres>>
+  /\ pc' = [pc EXCEPT ![P] = [s |-> "inv", k |-> Ev.k, opts |-> Avail(cached, flight, Ev.k)]]
+  /\ UNCHANGED <<cached, flight, nf, fres, done>> /\ Consume
 
 FetchBegin ==
-  /\ Is("fb") /\ pc[P].s = "lead" /\ pc[P].ph = "reg" /\ pc[P].k = Ev.k
-  /\ SetPc(P, [pc[P] EXCEPT !.ph = "run"])
-  /\ UNCHANGED <<cached, flight, nf, fres>> /\ Consume
+  /\ Is("fb") /\ pc[P].s = "inv" /\ pc[P].k = Ev.k
+  /\ flight[Ev.k] = 0                    \* F1
+  /\ cached[Ev.k] = 0                    \* F2
+  /\ ~done[Ev.k]                         \* F3
+  /\ nf' = nf + 1
+  /\ flight' = [flight EXCEPT ![Ev.k] = nf + 1]
+  /\ Update(P, [s |-> "lead", k |-> Ev.k, id |-> nf + 1, ph |-> "run", ok |-> FALSE, v |-> 0],
+            Ev.k, {[t |-> "join", x |-> nf + 1]})
+  /\ UNCHANGED <<cached, fres, done>> /\ Consume
 
 FetchEnd ==
   /\ Is("fe") /\ pc[P].s = "lead" /\ pc[P].ph = "run" /\ pc[P].k = Ev.k
-  /\ SetPc(P, [pc[P] EXCEPT !.ph = "ran", !.ok = Ev.ok, !.v = Ev.v])
+  /\ pc' = [pc EXCEPT ![P] = [@ EXCEPT !.ph = "ran", !.ok = Ev.ok, !.v = Ev.v]]
+  /\ done' = [done EXCEPT ![Ev.k] = @ \/ Ev.ok]
   /\ UNCHANGED <<cached, flight, nf, fres>> /\ Consume
 
 Finish(p) ==                                 \* internal
   /\ pc[p].s = "lead" /\ pc[p].ph = "ran"
-  /\ cached' = IF pc[p].ok THEN [cached EXCEPT ![pc[p].k] = pc[p].v] ELSE cached
-  /\ flight' = [flight EXCEPT ![pc[p].k] = 0]
+  /\ LET k == pc[p].k
+         c1 == IF pc[p].ok THEN [cached EXCEPT ![k] = pc[p].v] ELSE cached
+         f1 == [flight EXCEPT ![k] = 0] IN
+       /\ cached' = c1
+       /\ flight' = f1
+       /\ Update(p, [pc[p] EXCEPT !.ph = "fin"], k, Avail(c1, f1, k))
   /\ fres' = (pc[p].id :> [ok |-> pc[p].ok, v |-> pc[p].v]) @@ fres
-  /\ SetPc(p, [pc[p] EXCEPT !.ph = "fin"])
-  /\ UNCHANGED <<l, nf>>
+  /\ UNCHANGED <<l, nf, done>>
 
 \* a failed flight hands its callers the fetch function's own error
 Matches(r) == IF r.ok THEN Ev.err = FALSE /\ Ev.v = r.v ELSE Ev.err = TRUE /\ Ev.own = TRUE
 
+Explains(o) ==
+  \/ o.t = "hit" /\ Ev.err = FALSE /\ Ev.v = o.x
+  \/ o.t = "join" /\ o.x \in DOMAIN fres /\ Matches(fres[o.x])
+
 Ret ==
-  /\ Is("ret") /\ pc[P].s \in {"hit", "join", "lead"} /\ pc[P].k = Ev.k
-  /\ \/ pc[P].s = "hit" /\ Ev.err = FALSE /\ Ev.v = pc[P].v
-     \/ pc[P].s = "join" /\ pc[P].id \in DOMAIN fres /\ Matches(fres[pc[P].id])
+  /\ Is("ret") /\ pc[P].s \in {"inv", "lead"} /\ pc[P].k = Ev.k
+  /\ \/ pc[P].s = "inv" /\ \E o \in pc[P].opts : Explains(o)
      \/ pc[P].s = "lead" /\ pc[P].ph = "fin" /\ Matches(fres[pc[P].id])
-  /\ SetPc(P, Idle)
-  /\ UNCHANGED <<cached, flight, nf, fres>> /\ Consume
+  /\ pc' = [pc EXCEPT ![P] = Idle]
+  /\ UNCHANGED <<cached, flight, nf, fres, done>> /\ Consume
 
 Next ==
   \/ Reset \/ Inv \/ FetchBegin \/ FetchEnd \/ Ret
-  \/ \E p \in Procs : Enter(p) \/ Finish(p)
+  \/ \E p \in Procs : Finish(p)
 
 Spec == Init /\ [][Next]_vars
 
@@ -129,6 +157,9 @@ Spec == Init /\ [][Next]_vars
 FlightsDisjoint ==
   \A k \in Keys :
     Cardinality({p \in Procs : pc[p].s = "lead" /\ pc[p].k = k /\ pc[p].ph # "fin"}) = (IF flight[k] = 0 THEN 0 ELSE 1)
+
+\* a value is cached only after a successful fetch of that key has ended
+CachedOnlyOnSuccess == \A k \in Keys : cached[k] # 0 => done[k]
 
 HighWater == IF l > TLCGet(1) THEN TLCSet(1, l) ELSE TRUE     \* used as CONSTRAINT (always TRUE)
 Accepted  == /\ PrintT(<<"VREG", "hw", TLCGet(1)>>)
